@@ -430,6 +430,7 @@ int KSI_BlockSigner_addLeaf(KSI_BlockSigner *signer, KSI_DataHash *hsh, int leve
 	int res = KSI_UNKNOWN_ERROR;
 	KSI_TreeLeafHandle *leafHandle = NULL;
 	KSI_BlockSignerHandle *tmp = NULL;
+	KSI_DataHash *prevLeaf = NULL;
 	KSI_HashAlgorithm algoId;
 
 	if (signer == NULL || hsh == NULL) {
@@ -451,17 +452,26 @@ int KSI_BlockSigner_addLeaf(KSI_BlockSigner *signer, KSI_DataHash *hsh, int leve
 		goto cleanup;
 	}
 
-	/* Set the pointer to the meta data value. */
-	signer->metaData = metaData;
-
-	res = KSI_TreeBuilder_addDataHash(signer->builder, hsh, level, &leafHandle);
+	/* Create the handle before the leaf is inserted: nothing may fail once the leaf is in the tree. */
+	res = KSI_BlockSignerHandle_new(signer->ctx, &tmp);
 	if (res != KSI_OK) {
 		KSI_pushError(signer->ctx, res, NULL);
 		goto cleanup;
 	}
 
-	res = KSI_BlockSignerHandle_new(signer->ctx, &tmp);
+	/* Set the pointer to the meta data value. */
+	signer->metaData = metaData;
+
+	/* The masking processor advances the previous leaf value before the leaf is actually inserted. */
+	prevLeaf = KSI_DataHash_ref(signer->prevLeaf);
+
+	res = KSI_TreeBuilder_addDataHash(signer->builder, hsh, level, &leafHandle);
 	if (res != KSI_OK) {
+		/* The leaf was not added: the blinding mask chain has to continue from where it was. */
+		KSI_DataHash_free(signer->prevLeaf);
+		signer->prevLeaf = prevLeaf;
+		prevLeaf = NULL;
+
 		KSI_pushError(signer->ctx, res, NULL);
 		goto cleanup;
 	}
@@ -486,6 +496,7 @@ cleanup:
 
 	KSI_BlockSignerHandle_free(tmp);
 	KSI_TreeLeafHandle_free(leafHandle);
+	KSI_DataHash_free(prevLeaf);
 
 	return res;
 }
